@@ -243,6 +243,34 @@ func c14Isolation() []string {
 	if fp := packagesFingerprint(); fp != fp0 {
 		problems = append(problems, "the shared package tables were modified by running scripts")
 	}
+	// environments copied from one prepared template (values and types defined in it) stay separate
+	for _, deep := range []bool{false, true} {
+		tmpl := env.NewEnv()
+		tmpl.Define("base", int64(1))
+		tmpl.DefineType("Base", int64(0))
+		cp := func() *env.Env {
+			if deep {
+				return tmpl.DeepCopy()
+			}
+			return tmpl.Copy()
+		}
+		kind := map[bool]string{false: "Copy", true: "DeepCopy"}[deep]
+		c1, c2 := cp(), cp()
+		if _, err := run(c1, "make(type Mine, 1.5); own = 2; base = 10; make(type Base, \"s\"); [make(Mine), own, base]"); err != nil {
+			problems = append(problems, kind+" of a template: the first copy cannot define its own names: "+err.Error())
+		}
+		for who, e := range map[string]*env.Env{"the second copy": c2, "the template": tmpl, "a later copy": cp()} {
+			if _, err := run(e, "make(Mine)"); err == nil {
+				problems = append(problems, kind+" of a template: a type defined at top level in one copy is visible in "+who)
+			}
+			if _, err := run(e, "own"); err == nil {
+				problems = append(problems, kind+" of a template: a value defined in one copy is visible in "+who)
+			}
+			if v, err := run(e, "[base, make(Base)]"); err != nil || fmt.Sprint(v) != "[1 0]" {
+				problems = append(problems, fmt.Sprintf("%s of a template: a redefinition in one copy changed %s: [base, make(Base)] = %v %v", kind, who, v, err))
+			}
+		}
+	}
 	return problems
 }
 
